@@ -45,7 +45,7 @@ manifest = {
     ],
     "checks": checks,
     "not_applicable": na,
-    "notes": "Family: property-based testing and fuzzing. Known findings and repaired defects: KNOWN_FINDINGS.json. Seeded-defect validation: seeded/ and DESIGN.md section 9.",
+    "notes": "Family: property-based testing and fuzzing. Known findings and repaired defects: KNOWN_FINDINGS.json. Seeded-defect validation: seeded/ and DESIGN.md section 10; property-preserving variants (false-alarm search): benign/ and DESIGN.md section 12.",
 }
 if not na:
     del manifest["not_applicable"]
